@@ -83,17 +83,21 @@ def build():
                   E('purged', 'final(self).purged(old(self), if old(self).abs().current(entity) { seq![entity.0] } else { Seq::<u32>::empty() })', 'C05')],
          hints=[('start', None, 'proof { let s = old(self).abs(); assert forall|d: Seq<Entity>, k: nat| d.len() == 1 && d[0] == entity && #[trigger] s.kill_stops_at(d, k) implies k <= 1 && (k == 1) == s.current(entity) && s.kill_fold(d, k) == (if k == 1 { s.kill_one(entity) } else { s }) && ids(d.subrange(0, k as int)) == (if k == 1 { seq![entity.0] } else { Seq::<u32>::empty() }) by { lemma_single_kill(s, d, k); } }')])
     u.fn(W, ['impl WorldExt for World', 'fn delete_all'], props='C02 C01 C05', impl_header=IH, key='World::delete_all',
-         rules=[('N10', r'self\.entities\(\)\.join\(\)\.collect\(\)', 'collect_entities_join(self.entities())'), ('N1', r'let entities: Vec<_> =', 'let entities: Vec<Entity> =')],
+         rules=[('N10', r'self\.entities\(\)\.join\(\)\.collect\(\)', 'collect_entities_join(self.entities())'), ('N1', r'let (\w+): Vec<_> =', r'let \1: Vec<Entity> =')],
+         bind={'ents': r'let (\w+): Vec<Entity> = collect_entities_join\('},
          requires=[E('wf', 'old(self).wf()'), E('headroom', 'old(self).ents().alloc.headroom()')],
          ensures=[E('wf', 'final(self).wf()', 'C01 C02'),
                   E('none_left', 'forall|i: u32| !(#[trigger] final(self).abs().occ(i))', 'C02'),
                   E('purged', 'final(self).purged(old(self), sorted_seq(old(self).ents().alloc.alive@ + old(self).ents().alloc.raised@))', 'C05')],
-         hints=[('after', 'let entities', 'proof { lemma_delete_all(&old(self).ents().alloc, entities@); assert(entities@.subrange(0, entities@.len() as int) =~= entities@); assert(ids(entities@) =~= sorted_seq(old(self).ents().alloc.alive@ + old(self).ents().alloc.raised@)); }'),
-                ('before_tail', None, 'proof { assert forall|i: u32| !(#[trigger] self.abs().occ(i)) by { let f = old(self).abs().kill_fold(entities@, entities@.len()); assert(!f.occ(i)); assert(self.abs().alive.contains(i) == f.alive.contains(i)); assert(self.abs().raised.contains(i) == f.raised.contains(i)); } }')])
+         hints=[('after', 'collect_entities_join(', 'proof { lemma_delete_all(&old(self).ents().alloc, $ents@); assert($ents@.subrange(0, $ents@.len() as int) =~= $ents@); assert(ids($ents@) =~= sorted_seq(old(self).ents().alloc.alive@ + old(self).ents().alloc.raised@)); }'),
+                ('before_tail', None, 'proof { assert forall|i: u32| !(#[trigger] self.abs().occ(i)) by { let f = old(self).abs().kill_fold($ents@, $ents@.len()); assert(!f.occ(i)); assert(self.abs().alive.contains(i) == f.alive.contains(i)); assert(self.abs().raised.contains(i) == f.raised.contains(i)); } }')])
     # the purge itself: walks the table of listed storages (N10: MetaTable::iter_mut -> index loop over the listed storages)
     u.fn(W, ['impl WorldExt for World', 'fn delete_components'], props='C05', impl_header=IH, key='World::delete_components',
          rules=[('N10', r'for (?:mut )?storage in self\s*\.fetch_mut::<MetaTable<dyn AnyStorage>>\(\)\s*\.iter_mut\(self\)\s*\{\s*\(?\*?storage\)?\.drop\((.*?)\);\s*\}',
-                 r'for k__ in 0..self.listed_len() { self.listed_drop(k__, \1); }')],
+                 r'for k__ in 0..self.listed_len() { self.listed_drop(k__, \1); }'),
+                # the same walk with the fetched table bound to a local first
+                ('N10', r'let (?:mut )?(\w+) = self\s*\.fetch_mut::<MetaTable<dyn AnyStorage>>\(\);\s*for (?:mut )?storage in \1\.iter_mut\(self\)\s*\{\s*\(?\*?storage\)?\.drop\((.*?)\);\s*\}',
+                 r'for k__ in 0..self.listed_len() { self.listed_drop(k__, \2); }')],
          ensures=[E('ents', 'final(self).ents() == old(self).ents() && final(self).same_lazy(old(self))'),
                   E('purged', 'final(self).purged(old(self), ids(delete@))', 'C05')],
          loops={0: dict(invariant=[
@@ -102,14 +106,15 @@ def build():
          hints=[('start', None, 'broadcast use World::axiom_listed_seq;'),
                 ('after_loop', 0, 'proof { old(self).axiom_listed_seq(); assert forall|s: StorageId| #![trigger self.smask(s)] self.smask(s) == (if old(self).listed(s) { old(self).smask(s) - ids(delete@).to_set() } else { old(self).smask(s) }) by { if old(self).listed(s) { assert(old(self).listed_seq().contains(s)); let j = choose|j: int| 0 <= j < old(self).listed_seq().len() && old(self).listed_seq()[j] == s;  } } }')])
     # ---- draining the lazy queue (C09, reduced): N22 (while-let), N10 (`self.queue.0.pop()` -> `world.lazy_pop()`: the drained LazyUpdate is the world's own)
-    u.fn(L, ['impl LazyUpdate', 'fn maintain'], props='C09', key='LazyUpdate::maintain', attr='#[verifier::exec_allows_no_decreases_clause]',
+    u.fn(L, ['impl LazyUpdate', 'fn maintain'], props='C09', key='LazyUpdate::maintain', attr='#[verifier::exec_allows_no_decreases_clause]', brace_arms=True,
          rules=[('N10', r'self\.queue\.0\.pop\(\)', 'world.lazy_pop()')],
          ensures=[E('drained', 'final(world).lazy_queue() == Seq::<int>::empty()'),
                   E('order', 'pending(old(world)).is_prefix_of(final(world).lazy_log())')],
          loops={0: dict(invariant=[E('grows', 'pending(old(world)).is_prefix_of(pending(world))')],
                         ensures=[E('drained', 'world.lazy_queue().len() == 0')])},
-         hints=[('before', 'l.update(world)', 'let ghost lg__ = world.lazy_log(); let ghost qq__ = world.lazy_queue(); let ghost p0__ = pending(world);'),
-                ('after', 'l.update(world)', 'proof { let w0q = seq![l.aid()] + qq__; assert(w0q.drop_first() =~= qq__); lemma_pending_step(lg__, w0q, world.lazy_queue()); }')])
+         bind={'l': r'Some\((\w+)\) =>'},
+         hints=[('before', '.update(world)', 'let ghost lg__ = world.lazy_log(); let ghost qq__ = world.lazy_queue(); let ghost p0__ = pending(world); let ghost a__ = $l.aid();'),
+                ('after', '.update(world)', 'proof { let w0q = seq![a__] + qq__; assert(w0q.drop_first() =~= qq__); lemma_pending_step(lg__, w0q, world.lazy_queue()); }')])
     u.fn(W, ['impl WorldExt for World', 'fn is_alive'], ret='r', props='C02', impl_header=IH, key='World::is_alive',
          requires=[E('wf', 'self.wf()'), E('posgen', 'e.1.0@ > 0')],
          ensures=[E('merged_view', 'r == (self.ents().alloc.alive@.contains(e.0) && self.ents().alloc.gid(e.0 as int) == e.1.0@)')])
@@ -121,5 +126,6 @@ def build():
                            E('purged', 'every listed storage lost exactly the indices merge() returned, nothing else changed', 'C05 C09'),
                            E('queue_untouched', 'merge and purge ran before any queued action: the queue and the execution log are still what they were', 'C09'),
                            ],
-         hints=[('before', 'let lazy', 'proof { assert(/*@L:hint.merged*/ self.abs().core_eq(old(self).abs().merged()) /*@E*/); lemma_out_ids(deleted@, old(self).abs()); if deleted@.len() == 0 { lemma_purge_nothing(&*self, old(self), sorted_seq(old(self).abs().killed)); } assert(/*@L:hint.purged*/ self.purged(old(self), sorted_seq(old(self).abs().killed)) /*@E*/); assert(/*@L:hint.queue_untouched*/ self.same_lazy(old(self)) /*@E*/); }')])
+         bind={'deleted': r'let (\w+) = self\.entities_mut\(\)\.alloc\.merge\(\)'},
+         hints=[('before', '.write_resource::<LazyUpdate>()', 'proof { assert(/*@L:hint.merged*/ self.abs().core_eq(old(self).abs().merged()) /*@E*/); lemma_out_ids($deleted@, old(self).abs()); if $deleted@.len() == 0 { lemma_purge_nothing(&*self, old(self), sorted_seq(old(self).abs().killed)); } assert(/*@L:hint.purged*/ self.purged(old(self), sorted_seq(old(self).abs().killed)) /*@E*/); assert(/*@L:hint.queue_untouched*/ self.same_lazy(old(self)) /*@E*/); }')])
     return u
